@@ -324,4 +324,7 @@ func TestFlatePool(t *testing.T) {
 			t.Fatalf("%v", err)
 		}
 	}
+	// the deterministic variants of the early close of a Flate-under-DCT
+	// stream (flatedct_test.go)
+	runDCTCases(t, st, dctCases(false))
 }
